@@ -16,8 +16,10 @@ def kCr : K → List Id
 /-- every row id the current operation names -/
 def pcIds : Pc → List Id
   | .csGet k | .csSet k | .ccTest k | .ccRead k | .ccWrite k _ | .ccReset k | .cuAcq k | .cuWeakKeys k
-  | .cuWeakChk k _ | .cuStrongKeys k | .cuStrongGet k _ _ | .cuStrongDel k _ _ _ | .cuWeakSet k _ _ _ | .cuRel k => kIds k
-  | .probe i | .acq i | .relook i | .relRel i _ | .weakGet i | .weakDel i _ | .strongSet i _ | .relSet i _
+  | .cuWeakChk k _ | .cuStrongKeys k | .cuStrongGet k _ _ | .cuStrongDel k _ _ _ | .cuWeakSet k _ _ _ | .cuRel k
+  | .cuWeakPop k _ _ _ => kIds k
+  | .probe i | .acq i | .relook i | .relRel i _ | .weakGet i | .weakDel i _ | .weakDelDead i _ | .strongSet i _
+  | .relSet i _
   | .select i | .put i _ | .finRel i _ | .finRelNF i | .insert i | .crSet i _ | .crSelect i _
   | .exAcq i | .exInStrong i | .exDelStrong i | .exInWeak i | .exDelWeak i => [i]
   | _ => []
@@ -25,7 +27,8 @@ def pcIds : Pc → List Id
 /-- the id the current operation creates -/
 def pcCrIds : Pc → List Id
   | .csGet k | .csSet k | .ccTest k | .ccRead k | .ccWrite k _ | .ccReset k | .cuAcq k | .cuWeakKeys k
-  | .cuWeakChk k _ | .cuStrongKeys k | .cuStrongGet k _ _ | .cuStrongDel k _ _ _ | .cuWeakSet k _ _ _ | .cuRel k => kCr k
+  | .cuWeakChk k _ | .cuStrongKeys k | .cuStrongGet k _ _ | .cuStrongDel k _ _ _ | .cuWeakSet k _ _ _ | .cuRel k
+  | .cuWeakPop k _ _ _ => kCr k
   | .insert i | .crSet i _ | .crSelect i _ => [i]
   | _ => []
 
@@ -133,7 +136,8 @@ theorem ids_step (s s' : State) (t : Tid) (hs : step s t = some s') : IdsLe (s'.
 def pcEA : Pc → Bool
   | .eaAcq | .eaNext _ _ | .eaSetWeak _ _ _ _ | .eaSwap | .eaRel | .eaRelErr => true
   | .csGet k | .csSet k | .ccTest k | .ccRead k | .ccWrite k _ | .ccReset k | .cuAcq k | .cuWeakKeys k
-  | .cuWeakChk k _ | .cuStrongKeys k | .cuStrongGet k _ _ | .cuStrongDel k _ _ _ | .cuWeakSet k _ _ _ | .cuRel k =>
+  | .cuWeakChk k _ | .cuStrongKeys k | .cuStrongGet k _ _ | .cuStrongDel k _ _ _ | .cuWeakSet k _ _ _ | .cuRel k
+  | .cuWeakPop k _ _ _ =>
     match k with
     | .expireAll => true
     | _ => false
@@ -239,7 +243,8 @@ def kCreate : K → Option (Id × Obj)
 /-- the create the thread is in the middle of: row inserted, `cache[id] = obj` still ahead -/
 def actCreate : Pc → Option (Id × Obj)
   | .csGet k | .csSet k | .ccTest k | .ccRead k | .ccWrite k _ | .ccReset k | .cuAcq k | .cuWeakKeys k
-  | .cuWeakChk k _ | .cuStrongKeys k | .cuStrongGet k _ _ | .cuStrongDel k _ _ _ | .cuWeakSet k _ _ _ | .cuRel k => kCreate k
+  | .cuWeakChk k _ | .cuStrongKeys k | .cuStrongGet k _ _ | .cuStrongDel k _ _ _ | .cuWeakSet k _ _ _ | .cuRel k
+  | .cuWeakPop k _ _ _ => kCreate k
   | .crSet i o => some (i, o)
   | _ => none
 
@@ -306,5 +311,271 @@ theorem cinv_dbsub (s s' : State) (t : Tid) (ha : AInv s) (hb : BInv s) (hc : CI
     have h1 := hc.putdb t
     have h2 := hc.act t
     cases hpc : (s.th t).pc <;> simp only [hpc, pcWrites, actCreate] at h h1 h2 <;> simp_all
+
+theorem actCreate_entry (c : Bool) (op : Op) : actCreate (entry c op) = none := by
+  cases op <;> cases c <;> rfl
+theorem actCreate_finish (s : State) (t : Tid) (o : Out) : actCreate ((finish s t o).th t).pc = none := by
+  unfold finish; split
+  · simp only [setTh_self]; rfl
+  · simp only [setTh_self]; exact actCreate_entry _ _
+theorem actCreate_releaseFinish (s : State) (t : Tid) (o : Out) :
+    actCreate ((releaseFinish s t o).th t).pc = none := by
+  unfold releaseFinish; split <;> exact actCreate_finish _ _ _
+theorem actCreate_afterCC (s : State) (t : Tid) (k : K) : actCreate ((afterCC s t k).th t).pc = kCreate k := by
+  cases k <;> simp only [afterCC, goto_pc_self, actCreate_finish] <;> rfl
+theorem actCreate_afterCaches (s : State) (t : Tid) (k : K) :
+    actCreate ((afterCaches s t k).th t).pc = kCreate k := by
+  cases k <;> simp only [afterCaches, goto_pc_self] <;> rfl
+theorem actCreate_cuWeakNext (k : K) (l : List Id) : actCreate (cuWeakNext k l) = kCreate k := by cases l <;> rfl
+theorem actCreate_cuStrongNext (k : K) (l : List Id) : actCreate (cuStrongNext k l) = kCreate k := by cases l <;> rfl
+
+/-- a thread is in the middle of a create only if it was already (and its action wrote nothing new), or it
+    has just inserted the row -/
+theorem act_self (s s' : State) (t : Tid) (hs : step s t = some s') (i : Id) (o : Obj)
+    (h : actCreate (s'.th t).pc = some (i, o)) :
+    (actCreate (s.th t).pc = some (i, o) ∧ pcWrites (s.th t).pc = []) ∨ (s.th t).pc = .insert i := by
+  step_cases <;>
+    simp only [goto_pc_self, actCreate_finish, actCreate_releaseFinish, actCreate_afterCC, actCreate_afterCaches,
+      actCreate_cuWeakNext, actCreate_cuStrongNext] at h <;>
+    simp only [hpc, actCreate, pcWrites] <;> simp_all [actCreate, kCreate]
+
+theorem cuStrongNext_ne_put (k : K) (l : List Id) (i : Id) (o : Obj) : cuStrongNext k l ≠ .put i o := by
+  cases l <;> simp [cuStrongNext]
+theorem cuWeakNext_ne_put (k : K) (l : List Id) (i : Id) (o : Obj) : cuWeakNext k l ≠ .put i o := by
+  cases l <;> simp [cuWeakNext]
+
+theorem put_self (s s' : State) (t : Tid) (hs : step s t = some s') (i : Id) (o : Obj)
+    (h : (s'.th t).pc = .put i o) : i ∈ s.db ∨ (s.th t).pc = .put i o := by
+  have hh : holds (s'.th t).pc = true := by rw [h]; rfl
+  step_cases <;>
+    simp only [goto_pc_self, finish_holds, releaseFinish_holds, afterCC_holds, afterCaches_holds,
+      Bool.false_eq_true] at hh <;>
+    simp only [goto_pc_self] at h <;> simp_all [cuStrongNext_ne_put, cuWeakNext_ne_put]
+
+theorem pend_after_insert (s s' : State) (t : Tid) (hs : step s t = some s') (j : Id)
+    (hpc : (s.th t).pc = .insert j) (hdb : s'.db = s.db ++ [j]) :
+    thPend (s'.th t) = progCrIds (s.th t).prog := by
+  simp only [step, hpc] at hs
+  split at hs
+  · injection hs with hs; subst hs
+    simp at hdb
+  · split at hs <;> (injection hs with hs; subst hs) <;> simp [thPend, goto, pendPc]
+
+theorem cinv_step (s s' : State) (t : Tid) (ha : AInv s) (hb : BInv s) (hf : Fresh s) (hc : CInv s)
+    (hs : step s t = some s') : CInv s' := by
+  have hne : ∀ u, u ≠ t → s'.th u = s.th u := fun u hu => step_th_ne s s' t u hs hu
+  have hi := ids_step s s' t hs
+  refine ⟨cinv_dbsub s s' t ha hb hc hs, ?_, ?_, ?_⟩
+  · -- pend
+    intro u i hiu
+    rcases db_effect s s' t hs with e | ⟨j, hpj, e⟩
+    · rw [e]
+      by_cases hu : u = t
+      · subst hu; exact hc.pend u i (hi.pend hiu)
+      · rw [hne u hu] at hiu; exact hc.pend u i hiu
+    · have hjt : j ∈ thIds (s.th t) := by simp [thIds, hpj, pcIds]
+      by_cases hu : u = t
+      · subst hu
+        have hold := hc.pend u i (hi.pend hiu)
+        rw [pend_after_insert s s' u hs j hpj e] at hiu
+        have hnd := hf.2 u
+        simp only [thCrIds, hpj, pcCrIds, List.cons_append, List.nil_append, List.nodup_cons] at hnd
+        rw [e]; simp only [List.mem_append, List.mem_singleton, not_or]
+        exact ⟨hold, fun h => hnd.1 (h ▸ hiu)⟩
+      · rw [hne u hu] at hiu
+        have hold := hc.pend u i hiu
+        have := hf.1 u t hu i (thPend_sub _ hiu)
+        rw [e]; simp only [List.mem_append, List.mem_singleton, not_or]
+        exact ⟨hold, fun h => this (h ▸ hjt)⟩
+  · -- act
+    intro u i o hact
+    by_cases hu : u = t
+    · subst hu
+      rcases act_self s s' u hs i o hact with ⟨hold, hw⟩ | hins
+      · obtain ⟨hnp, hdb⟩ := hc.act u i o hold
+        refine ⟨fun hp => ?_, mem_db_step s s' u hs i hdb⟩
+        rcases presence_step s s' u ha hb hs i hp with h | h
+        · exact hnp h
+        · rw [hw] at h; simp at h
+      · have hnd : i ∉ s.db := hc.pend u i (by simp [thPend, hins, pendPc])
+        refine ⟨fun hp => ?_, ?_⟩
+        · rcases presence_step s s' u ha hb hs i hp with h | h
+          · exact hnd (hc.dbsub i h)
+          · rw [hins] at h; simp [pcWrites] at h
+        · rcases db_effect s s' u hs with e | ⟨j, hpj, e⟩
+          · exfalso
+            simp only [step, hins] at hs
+            split at hs
+            · rename_i hin; exact hnd hin
+            · split at hs <;> (injection hs with hs; subst hs) <;> simp at e
+          · rw [hins] at hpj; injection hpj with hpj; subst hpj; rw [e]; simp
+    · rw [hne u hu] at hact
+      obtain ⟨hnp, hdb⟩ := hc.act u i o hact
+      refine ⟨fun hp => ?_, mem_db_step s s' t hs i hdb⟩
+      rcases presence_step s s' t ha hb hs i hp with h | h
+      · exact hnp h
+      · have h1 : i ∈ thCrIds (s.th u) := by
+          simp only [thCrIds, List.mem_append]; exact Or.inl (actCreate_crIds _ i o hact)
+        have h2 : i ∈ thIds (s.th t) := by
+          simp only [thIds, List.mem_append]; exact Or.inl (pcWrites_sub _ h)
+        exact hf.1 u t hu i h1 h2
+  · -- putdb
+    intro u i o hp
+    by_cases hu : u = t
+    · subst hu
+      rcases put_self s s' u hs i o hp with h | h
+      · exact mem_db_step s s' u hs i h
+      · exact mem_db_step s s' u hs i (hc.putdb u i o h)
+    · rw [hne u hu] at hp
+      exact mem_db_step s s' t hs i (hc.putdb u i o hp)
+
+theorem gid_pcIds (pc : Pc) (i : Id) (h : gid pc = some i) : i ∈ pcIds pc := by
+  cases pc <;> simp_all [gid, pcIds]
+
+/-- freshness makes the lock-free steps harmless -/
+theorem crok_of_fresh (s : State) (t : Tid) (hf : Fresh s) (hn : NoEA s) (hc : CInv s) : CrOK s t := by
+  constructor
+  · intro i o hp
+    obtain ⟨hnp, _⟩ := hc.act t i o (by rw [hp]; rfl)
+    have hcr : i ∈ thCrIds (s.th t) := by simp [thCrIds, hp, pcCrIds]
+    refine ⟨?_, ?_, ?_, ?_, ?_⟩
+    · cases h : aget s.strong i with
+      | none => rfl
+      | some v => exact absurd (Or.inl (by simp [h])) hnp
+    · cases h : aget s.weak i with
+      | none => rfl
+      | some v => exact absurd (Or.inr (Or.inl (by simp [h]))) hnp
+    · intro o' h; exact hnp (Or.inr (Or.inr ⟨o', h⟩))
+    · intro u hg
+      by_cases hu : u = t
+      · subst hu; rw [hp] at hg; simp [gid] at hg
+      · exact hf.1 t u (Ne.symm hu) i hcr (by simp only [thIds, List.mem_append]; exact Or.inl (gid_pcIds _ _ hg))
+    · intro u; exact pcEAk_of_pcEA _ (hn u).1
+  · intro i hp
+    exact hc.pend t i (by simp [thPend, hp, pendPc])
+
+/-- all layers along a schedule, for programs with fresh creates and no expireAll -/
+theorem inv_run_fresh (s : State) (sched : List Tid) (ha : AInv s) (hb : BInv s) (hfi : FInv s) (hf : Fresh s)
+    (hn : NoEA s) (hc : CInv s) (he : EInv s) :
+    AInv (run s sched) ∧ BInv (run s sched) ∧ Fresh (run s sched) ∧ NoEA (run s sched) ∧ CInv (run s sched) ∧
+      EInv (run s sched) := by
+  induction sched generalizing s with
+  | nil => exact ⟨ha, hb, hf, hn, hc, he⟩
+  | cons t ts ih =>
+    unfold run
+    split
+    · rename_i s' hs
+      have hcr := crok_of_fresh s t hf hn hc
+      exact ih s' (ainv_step s s' t ha hs) (binv_step s s' t ha hb hfi hcr hs) (finv_step s s' t hfi hs)
+        (fresh_step s s' t hf hs) (noea_step s s' t hn hs) (cinv_step s s' t ha hb hf hc hs)
+        (einv_step s s' t ha hb hcr he hs)
+    · exact ih s ha hb hfi hf hn hc he
+
+theorem reach_run_fresh (s : State) (sched : List Tid) (ha : AInv s) (hb : BInv s) (hfi : FInv s) (hf : Fresh s)
+    (hn : NoEA s) (hc : CInv s) (i : Id) (o : Obj) (hr : Reach s i o) (hal : Held s o) :
+    Reach (run s sched) i o := by
+  induction sched generalizing s with
+  | nil => exact hr
+  | cons t ts ih =>
+    unfold run
+    split
+    · rename_i s' hs
+      have hcr := crok_of_fresh s t hf hn hc
+      exact ih s' (ainv_step s s' t ha hs) (binv_step s s' t ha hb hfi hcr hs) (finv_step s s' t hfi hs)
+        (fresh_step s s' t hf hs) (noea_step s s' t hn hs) (cinv_step s s' t ha hb hf hc hs)
+        (reach_step s s' t ha hb hcr hs i o hr hal) (held_step s s' t hs o hal)
+    · exact ih s ha hb hfi hf hn hc hr hal
+
+/-! ## initial states -/
+theorem startTh_ids (c : Bool) (p : List Op) :
+    thIds (startTh c p) = progIds p ∧ thCrIds (startTh c p) = progCrIds p ∧ thPend (startTh c p) = progCrIds p := by
+  cases p with
+  | nil => simp [startTh, thIds, thCrIds, thPend, pcIds, pcCrIds, pendPc, progIds, progCrIds]
+  | cons op rest =>
+    simp [startTh, thIds, thCrIds, thPend, pcIds_entry, pcCrIds_entry, pendPc_entry, progIds, progCrIds]
+
+theorem actCreate_startTh (c : Bool) (p : List Op) : actCreate (startTh c p).pc = none := by
+  cases p
+  · rfl
+  · simp only [startTh]; exact actCreate_entry _ _
+
+theorem noea_startTh (c : Bool) (p : List Op) (h : ∀ op ∈ p, isEA op = false) : thNoEA (startTh c p) := by
+  cases p with
+  | nil => simp [startTh, thNoEA, pcEA]
+  | cons op rest =>
+    simp only [startTh, thNoEA]
+    exact ⟨pcEA_entry _ _ (h op (by simp)), fun op' ho => h op' (by simp [ho])⟩
+
+theorem fresh_init (caches : Bool) (strong weak : AMap) (db : List Id) (fresh freq frac cc off : Nat)
+    (pins : List Obj) (progs : Tid → List Op)
+    (h1 : ∀ t u, t ≠ u → ∀ i ∈ progCrIds (progs t), i ∉ progIds (progs u))
+    (h2 : ∀ t, (progCrIds (progs t)).Nodup) :
+    Fresh (mkInit caches strong weak db fresh freq frac cc off pins progs) := by
+  constructor
+  · intro t u htu i hi
+    change i ∈ thCrIds (startTh caches (progs t)) at hi
+    change i ∉ thIds (startTh caches (progs u))
+    rw [(startTh_ids caches (progs t)).2.1] at hi
+    rw [(startTh_ids caches (progs u)).1]
+    exact h1 t u htu i hi
+  · intro t
+    change (thCrIds (startTh caches (progs t))).Nodup
+    rw [(startTh_ids caches (progs t)).2.1]; exact h2 t
+
+theorem noea_init (caches : Bool) (strong weak : AMap) (db : List Id) (fresh freq frac cc off : Nat)
+    (pins : List Obj) (progs : Tid → List Op) (h : ∀ t, ∀ op ∈ progs t, isEA op = false) :
+    NoEA (mkInit caches strong weak db fresh freq frac cc off pins progs) :=
+  fun t => noea_startTh caches (progs t) (h t)
+
+theorem cinv_init (caches : Bool) (strong weak : AMap) (db : List Id) (fresh freq frac cc off : Nat)
+    (pins : List Obj) (progs : Tid → List Op)
+    (hdb : ∀ i, (aget strong i ≠ none ∨ aget weak i ≠ none) → i ∈ db)
+    (h3 : ∀ t, ∀ i ∈ progCrIds (progs t), i ∉ db) :
+    CInv (mkInit caches strong weak db fresh freq frac cc off pins progs) := by
+  refine ⟨?_, ?_, ?_, ?_⟩
+  · intro i hp
+    rcases hp with h | h | ⟨o, h⟩
+    · exact hdb i (Or.inl h)
+    · exact hdb i (Or.inr h)
+    · simp [mkInit] at h
+  · intro t i hi
+    change i ∈ thPend (startTh caches (progs t)) at hi
+    rw [(startTh_ids caches (progs t)).2.2] at hi
+    exact h3 t i hi
+  · intro t i o h
+    have : actCreate (startTh caches (progs t)).pc = some (i, o) := h
+    simp [actCreate_startTh] at this
+  · intro t i o h
+    have h' : (startTh caches (progs t)).pc = .put i o := h
+    have := holds_startTh caches (progs t)
+    rw [h'] at this; simp [holds] at this
+
+/-! ## programs given as a finite list -/
+def progsOf (l : List (List Op)) : Tid → List Op := fun t => l.getD t []
+
+theorem getD_mem_or_nil (l : List (List Op)) (t : Nat) : l.getD t [] = [] ∨ (t < l.length ∧ l.getD t [] ∈ l) := by
+  by_cases h : t < l.length
+  · right; refine ⟨h, ?_⟩
+    simp [List.getD, List.getElem?_eq_getElem h]
+  · left; simp [List.getD, List.getElem?_eq_none (Nat.le_of_not_lt h)]
+
+theorem aget_mem (m : AMap) (i : Id) (h : aget m i ≠ none) : ∃ kv ∈ m, kv.1 = i := by
+  induction m with
+  | nil => simp at h
+  | cons p m ih =>
+    obtain ⟨k, v⟩ := p
+    simp only [aget] at h
+    split at h
+    · rename_i e; exact ⟨(k, v), by simp, e⟩
+    · obtain ⟨kv, hm, e⟩ := ih h; exact ⟨kv, by simp [hm], e⟩
+
+theorem all_of_list (P : Op → Bool) (l : List (List Op)) (h : ∀ p ∈ l, ∀ op ∈ p, P op = false) :
+    ∀ t, ∀ op ∈ progsOf l t, P op = false := by
+  intro t op hop
+  change op ∈ l.getD t [] at hop
+  rcases getD_mem_or_nil l t with e | ⟨_, e⟩
+  · rw [e] at hop; simp at hop
+  · exact h _ e op hop
+
 
 end SqlObjVerif.Conc
